@@ -643,6 +643,9 @@ def run(plan):
                         and c.size]
                 if _REGIME[0] == "complex" and sym in ("//", "%", "**"):
                     continue       # not defined (or branch-cut sensitive) for complex values
+                if _REGIME[0] == "float32" and sym in ("//", "%"):
+                    continue       # discontinuous: a single-precision rounding difference of the
+                    #                operand (the class computes in double) moves the result by O(1e-5)
                 if big:
                     # exact integer arithmetic only (no float operand, no overflow)
                     if sym not in ("+", "-") or x != int(x):
